@@ -235,6 +235,11 @@ func (p *Parser) ParseRemainingExpressionWithPrecedence(left ast.Expression, pre
 				return left
 			}
 		}
+		// Restricted production: no line break is allowed before a postfix ++ / --,
+		// so `a⏎++b` is `a; ++b`
+		if p.PeekToken.AfterNewline && (p.PeekToken.Type == token.INCREMENT || p.PeekToken.Type == token.DECREMENT) {
+			return left
+		}
 		left = p.ParseInfixExpression(left)
 	}
 	return left
